@@ -150,7 +150,11 @@ func (l *Listener) Accept(ctx context.Context) (*Conn, error) {
 	if err != nil {
 		return nil, err
 	}
-	conn := &Conn{TCPConn: c, id: nextid(), ack: l.ack}
+	// every connection gets its own copy of the listener's parameters;
+	// a limit of 0 means "no limit" on the wire and is replaced by the
+	// default after the handshake, as the client side does.
+	ack := *l.ack
+	conn := &Conn{TCPConn: c, id: nextid(), ack: &ack}
 	if err := conn.srvhandshake(l.endpoint); err != nil {
 		c.Close()
 		return nil, err
@@ -311,6 +315,12 @@ func (c *Conn) srvhandshake(endpoint string) error {
 		if err := c.Send("ACKF", c.ack); err != nil {
 			c.SendError(ua.StatusBadTCPInternalError)
 			return err
+		}
+		if c.ack.MaxChunkCount == 0 {
+			c.ack.MaxChunkCount = DefaultMaxChunkCount
+		}
+		if c.ack.MaxMessageSize == 0 {
+			c.ack.MaxMessageSize = DefaultMaxMessageSize
 		}
 		debug.Printf("uacp %d: recv %#v", c.id, hel)
 		return nil
